@@ -2,14 +2,14 @@ SPECIFICATION Spec
 CONSTANTS
   N = 2
   Inc = 2
-  MaxH = 2
+  MaxH = 3
   MaxReq = 1
   DesigSets <- DesigAll2
   FeeSet <- FeesOne
   MaxNet = 4
   AllowFast = FALSE
-  AllowForge = FALSE
-  AllowRestart = TRUE
+  AllowForge = TRUE
+  AllowRestart = FALSE
   AllowAlt = TRUE
   AllowTick = TRUE
   BugVubCurrent = FALSE
